@@ -9,6 +9,10 @@ Edges:  caller body -> callee body ids
 from . import mir
 
 
+FANOUT_CRATES = {"zbus", "zvariant", "zvariant_utils", "zbus_names", "zbus_macros", "zvariant_derive", "zbus_xml",
+                 "zbus_xmlgen", "serde_core", "serde"}
+
+
 class CallGraph:
     def __init__(self, facts):
         self.f = facts
@@ -30,14 +34,19 @@ class CallGraph:
         res, decl = c.get("res"), c.get("fn")
         if c.get("selfclosure") and c["selfclosure"] in f.bodies:
             out.append(c["selfclosure"])
-        if res and res in f.bodies and c.get("resk") != "virtual":
-            out.append(res)
+        if res and c.get("resk") != "virtual":
+            # statically resolved (possibly to a body outside the workspace): no fan-out
+            if res in f.bodies:
+                out.append(res)
             return out
         tr = c.get("trait")
         if tr and decl:
             name = decl.rsplit("::", 1)[-1]
-            # generic / virtual dispatch: all workspace impls + the trait's default body
-            out += self.trait_impls.get((tr, name), [])
+            # generic / virtual dispatch: all workspace impls + the trait's default body. Only for traits
+            # defined in the workspace or by serde: fanning out `From::from` / `Clone::clone` / `fmt` to every
+            # workspace impl would make everything reachable from everything.
+            if tr.split("::", 1)[0] in FANOUT_CRATES:
+                out += self.trait_impls.get((tr, name), [])
             if decl in f.bodies:
                 out.append(decl)
             return out
@@ -65,8 +74,8 @@ class CallGraph:
                 if k and k.get("fn") and k["fn"] in f.bodies:
                     es.add(k["fn"])
 
-    def reach(self, roots, stop=None):
-        """ids of bodies reachable from roots (inclusive). `stop(id)` prunes."""
+    def reach(self, roots, stop=None, edge_ok=None):
+        """ids of bodies reachable from roots (inclusive). `stop(id)` prunes; `edge_ok(src, dst)` filters edges."""
         seen = set()
         work = [r for r in roots]
         while work:
@@ -77,7 +86,7 @@ class CallGraph:
             if stop and stop(x):
                 continue
             for y in self.edges.get(x, ()):
-                if y not in seen:
+                if y not in seen and (edge_ok is None or edge_ok(x, y)):
                     work.append(y)
         return seen
 
